@@ -467,7 +467,9 @@ class C04(Check):
     level = 'exploration'
     rule = ('case kinds: (hist) 1-3 sessions on 3 mailboxes issuing APPEND/'
             'MULTIAPPEND/COPY/MOVE/"expunge the highest then append"/STATUS/'
-            'SELECT/RENAME there-and-back under one external-event schedule, '
+            'SELECT/RENAME there-and-back/replace a mailbox by a new one of '
+            'the same name/deliveries into maildir new/ under one '
+            'external-event schedule, '
             'all UID-bearing responses recorded with call/return steps and '
             'checked offline; (crash) a maildir history of UID-assigning '
             'commands swept over every crash point with restart; distinct = '
